@@ -241,6 +241,50 @@ CHECKS = {
 NOT_YET = "check not built yet in this round (planned in DESIGN.md section 4); no claim is made"
 
 
+# what rounds 12 and 13 added to the workloads (state carried from one operation to the next, configuration changed on
+# a running node, objects that live on); appended to the texts above
+ADDED = {
+    "C01": "Between judged cases, operations that legitimately fail run on unrelated objects (vf/errinject.py: groups with "
+           "a bad member after good ones, members that are no AVPs, failing typed encodes, garbage decodes): a valid case must "
+           "come out the same after them.",
+    "C02": "Failing encodes and decodes of unrelated messages run between judged cases (vf/errinject.py).",
+    "C03": "Failing operations run between judged cases (vf/errinject.py); half of the cases with a list attribute change "
+           "the list in place after a first encode and encode again, judged against a message built from scratch.",
+    "C04": "One Unpacker object lives through a whole shard and is reset() to every third input; its result must equal a "
+           "fresh Unpacker's and its position must stay inside the buffer. A typed message refusing to re-create its AVP "
+           "list from decoded values (library encode error) is counted, not judged.",
+    "C05": "Every other reader shard runs with the library's loggers at DEBUG; a bad-length frame is also met while a "
+           "neighbour connection receives a burst in the same read round (many attention notices at once).",
+    "C06": "In histories with a prior connection the node's vendor id / product name are changed and / or an application is "
+           "registered after that connection's exchange; the CEA must show the configuration as it is now.",
+    "C07": "Requests and answers also carry the T / E / P header flags and recycled identifiers (those of the last answered "
+           "request), zero identifiers, and - behaviour 'mixed' - equal identifier pairs on several connections with one "
+           "peer's requests kept by the application and the others' failing in the handler.",
+    "C08": "Between inbound cases the node's own applications send requests towards served, unserved and unknown realms.",
+    "C09": "The first answer may also be handed to the node with the connection (Node.send_message) or given by the node for "
+           "a failing handler, after which every submission is a second one; other connections may use the pending "
+           "identifiers (hop-by-hop and end-to-end); an application may be registered for the requester after its DPR. "
+           "Equal identifier pairs pending on two connections at once are the known finding "
+           "answer.identifiers_pending_on_two_connections.",
+    "C10": "Selection callbacks may consume or reorder the list they are offered; a quarter of the configurations put all "
+           "peers on one IP address; scripted start values whichever random function draws them.",
+    "C11": "In a third of the scenarios the peer under test is registered with add_peer (own timers) only after the node "
+           "has served another peer's connection.",
+    "C12": "Outcomes include an election (dial rejected beside a ready inbound connection, then DPR) and reconnect attempts "
+           "that die at socket creation (EMFILE).",
+    "C13": "Action late_app registers an application on the running node (six directed histories and the random walks).",
+    "C15": "Every statement of the writer loop behind its get() is a scheduling point.",
+    "C16": "The random source is also driven to the smallest / largest / a middle outcome of every draw (ExtremeRandom) for "
+           "820 start times; a caller making a failing next_id call races correct callers under the scheduler.",
+    "C17": "Steps idle (the node awaits its DWA) and dwa; requests whose Origin-Host the application rewrites on the request "
+           "object before answering.",
+    "C18": "A connect pending at stop() may fail inside the shutdown window (peer with two addresses).",
+    "C19": "Kind socket_creation_fails: reconnect attempts that die before a socket exists.",
+    "C20": "The application object is re-registered with a node of another identity after every fourth command; node-built "
+           "answers are read off the wire for identifiers 0 and 2^32-1.",
+}
+
+
 def main():
     props = [json.loads(l) for l in open(os.path.join(VERIF, "properties.jsonl"))]
     checks = []
@@ -258,7 +302,8 @@ def main():
             "evidence_file": f"/verif/evidence/{pid}.json",
             "replay_cmd_template": f"/venv/bin/python -m vf.run {pid} --replay {{path}}",
             "engine": c.get("engine", "vf"),
-            "level_claimed": {"category": c["cat"], "text": c["text"], "design_ref": "DESIGN.md section " + c["ref"]},
+            "level_claimed": {"category": c["cat"], "text": c["text"] + (" " + ADDED[pid] if pid in ADDED else ""),
+                              "design_ref": "DESIGN.md section " + c["ref"]},
             "level_note": c["note"],
             "technique": c["tech"],
         })
